@@ -520,6 +520,89 @@ theorem step_inv {n : Nat} {σ : St} {s : Sid} (a : Act) (hI : Inv n σ) (hs : s
       · intro o' r' _ hst; simp at hst
   | rollback => exact inv_fail s hI
 
+/-- frame: a step of session `t` (not inside a transaction) leaves the bookkeeping of every other session alone -/
+theorem step_frame {n : Nat} {σ : St} {s t : Sid} (a : Act) (hts : t ≠ s) (htin : (σ.sess t).inTxn = false) :
+    (step n σ t a).1.sess s = σ.sess s := by
+  have hset : ∀ (τ : St) (x : Sess), (setSess τ t x).sess s = τ.sess s := by
+    intro τ x; simp [setSess, upd, hts.symm]
+  have hfail : ∀ (τ : St), (failSess τ t).sess s = τ.sess s := by
+    intro τ; simp [failSess, upd, hts.symm]
+  have hite : ∀ (c : Prop) [Decidable c] (x y : St × Res), x.1.sess s = σ.sess s → y.1.sess s = σ.sess s →
+      (if c then x else y).1.sess s = σ.sess s := by
+    intro c _ x y hx hy; split <;> assumption
+  have hens : ∀ r, ensureTxn n σ t = r →
+      match r with | .ok τ => τ.sess s = σ.sess s | .blocked τ => τ.sess s = σ.sess s | .busy τ => τ.sess s = σ.sess s := by
+    intro r hr
+    unfold ensureTxn at hr
+    rw [if_neg (by simp [htin])] at hr
+    split at hr
+    · split at hr
+      · split at hr
+        · subst hr; rfl
+        · split at hr
+          · subst hr; simp [failSess, upd, hts.symm]
+          · subst hr; simp [setSess, upd, hts.symm]
+      · subst hr; rfl
+    · split at hr
+      · subst hr; rfl
+      · split at hr
+        · subst hr; simp [failSess, upd, hts.symm]
+        · subst hr; simp [setSess, upd, hts.symm]
+  have hE3 := hens _ rfl
+  unfold step
+  dsimp only
+  apply hite
+  · rfl
+  · cases a with
+    | read o' =>
+      dsimp only
+      cases hseen : (σ.sess t).seen o' with
+      | some v => rfl
+      | none =>
+        dsimp only
+        apply hite
+        · cases hE : ensureTxn n σ t with
+          | ok τ => rw [hE] at hE3; dsimp only; rw [hset]; exact hE3
+          | blocked τ => rw [hE] at hE3; exact hE3
+          | busy τ => rw [hE] at hE3; exact hE3
+        · dsimp only; rw [hset]
+    | lockRead o' =>
+      dsimp only
+      cases hE : ensureTxn n σ t with
+      | blocked τ => rw [hE] at hE3; exact hE3
+      | busy τ => rw [hE] at hE3; exact hE3
+      | ok τ =>
+        rw [hE] at hE3
+        dsimp only
+        cases hseen : (τ.sess t).seen o' with
+        | none => dsimp only; rw [hset]; exact hE3
+        | some r =>
+          dsimp only
+          apply hite
+          · dsimp only; rw [hfail]; exact hE3
+          · dsimp only; rw [hset]; exact hE3
+    | update o' v' =>
+      dsimp only
+      cases hseen : (σ.sess t).seen o' with
+      | none => rfl
+      | some r =>
+        dsimp only
+        cases hE : ensureTxn n σ t with
+        | blocked τ => rw [hE] at hE3; exact hE3
+        | busy τ => rw [hE] at hE3; exact hE3
+        | ok τ =>
+          rw [hE] at hE3
+          dsimp only
+          apply hite
+          · dsimp only; rw [hfail]; exact hE3
+          · dsimp only; rw [hset]; exact hE3
+    | commit =>
+      dsimp only
+      rw [if_neg (by simp [htin])]
+      dsimp only
+      rw [hset]
+    | rollback => dsimp only; rw [hfail]
+
 theorem run_inv {n : Nat} (sched : List (Sid × Act)) : ∀ (σ : St), Inv n σ → (∀ p ∈ sched, p.1 < n) → Inv n (run n σ sched) := by
   induction sched with
   | nil => intro σ h _; exact h
